@@ -135,11 +135,18 @@ def run(cfg, ctx):
     mn = lambda a, b: z3.If(a < b, a, b)
     n_read0 = z3.If(sp0.run, mn(mn(cnt_stop0, L0_0), z3.IntVal(S)), 0)
     n_start0 = z3.If(st0.run, cnt_start0, 0)
+    # ghost bookkeeping in bit-vector arithmetic (positions/counts are far below 2**NW)
+    L0_bv = N(hw.sig(th.locals_of(impl.fifos[0])["level"]))
+    cs_bv = N(sp0.arg("count")) if cfg["kind"] == "wide" else N(1)
+    ct_bv = N(st0.arg("count")) if cfg["kind"] == "wide" else N(1)
+    bmin = lambda a, b: z3.If(z3.ULT(a, b), a, b)
+    n_read0_bv = z3.If(sp0.run, bmin(bmin(cs_bv, L0_bv), N(S)), N(0))
+    n_start0_bv = z3.If(st0.run, ct_bv, N(0))
+    begin = z3.And(g_tr == 0, track_now, z3.UGE(n_start0_bv, N(1)))
+    popped = z3.And(g_tr == 1, z3.ULT(g_pos, n_read0_bv))
     pos_i = z3.BV2Int(g_pos)
-    begin = z3.And(g_tr == 0, track_now, n_start0 >= 1)
-    popped = z3.And(g_tr == 1, pos_i < n_read0)
     hw.set_ghost_next(g_tr, z3.If(begin, z3.BitVecVal(1, 1), z3.If(popped, z3.BitVecVal(0, 1), g_tr)))
-    hw.set_ghost_next(g_pos, z3.If(begin, z3.Int2BV(L0_0 - n_read0, NW), z3.If(g_tr == 1, z3.Int2BV(pos_i - n_read0, NW), g_pos)))
+    hw.set_ghost_next(g_pos, z3.If(begin, L0_bv - n_read0_bv, z3.If(g_tr == 1, g_pos - n_read0_bv, g_pos)))
     hw.set_ghost_next(g_age, z3.If(begin, N(1), g_age + 1))
     ctx.use(hw)
     A = []
@@ -159,11 +166,8 @@ def run(cfg, ctx):
         st_ = w0["rep"](nxt)
         v = w0["view"](st_)
         ep = hw.nxt(epoch_s) if nxt else epoch
-        p = z3.BV2Int(pos)
-        at = v[-1]
-        for j in reversed(range(len(v) - 1)):
-            at = z3.If(p == j, v[j], at)
-        return z3.Implies(tr == 1, z3.And(p >= 0, p < st_[4], at == ep - agemod(age)))
+        lvl = N(hw.nxt(th.locals_of(impl.fifos[0])["level"]) if nxt else hw.sig(th.locals_of(impl.fifos[0])["level"]))
+        return z3.Implies(tr == 1, z3.And(z3.ULT(pos, lvl), select(v, pos) == ep - agemod(age)))
 
     pre = pres + [ghost_inv(False)]
     P = lambda name, post: ctx.prove(name, post, pre=pre, assume=A, hw=hw)
@@ -203,7 +207,7 @@ def run(cfg, ctx):
     fs = []
     for i in range(S):
         add = impl.histogram.add[i]
-        fs.append(z3.Implies(z3.And(popped, pos_i == i), z3.And(hw.b(add.run), hw.sig(add.data_in.sample) == agemod(g_age))))
+        fs.append(z3.Implies(z3.And(popped, g_pos == i), z3.And(hw.b(add.run), hw.sig(add.data_in.sample) == agemod(g_age))))
     P("tracked_event.sample_is_its_age", z3.And(*fs))
     ctx.cover("tracked_popped", z3.And(*pre, *A, popped), hw=hw)
     ctx.cover("tracking_begins", z3.And(*pre, *A, begin), hw=hw)
